@@ -27,6 +27,20 @@ func main() {
 		code := cmdCheck(os.Args[2:])
 		cleanupScratch()
 		os.Exit(code)
+	case "bpf":
+		w, err := loadWorld(repoDir(), nil)
+		if err != nil {
+			fmt.Println(err)
+			os.Exit(2)
+		}
+		obs, errs := w.bpfObligations()
+		for _, e := range errs {
+			fmt.Println("ERROR", e)
+		}
+		for _, ob := range obs {
+			r := solve(ob.Query, sanitize(ob.Name), 30000, true, true)
+			fmt.Printf("%-45s %s %s %.2fs %v\n", ob.Name, r.Status, r.Solver, r.Secs, r.Answers)
+		}
 	case "units":
 		w, err := loadWorld(repoDir(), nil)
 		if err != nil {
